@@ -24,10 +24,11 @@ type Profile struct {
 	BadArgs     int // percent of xattr calls with a deliberately invalid argument
 	Reopen      int // weight of close-all+reopen steps (disk worlds only)
 	Purge       int
-	Stable      int // weight of "nothing changes without a call" checks
-	Sync        int // weight of feed sync points
-	Backfill    int // weight of dump-feed snapshot checks
-	FeedsMax    int // number of live feeds to start (0..FeedsMax)
+	Stable      int            // weight of "nothing changes without a call" checks
+	Sync        int            // weight of feed sync points
+	Backfill    int            // weight of dump-feed snapshot checks
+	FeedsMax    int            // number of live feeds to start (0..FeedsMax)
+	MetaCasW    map[string]int // weights of the *WithMeta CAS classes (default: all of them)
 	MultiHandle bool
 	FixedKeys   bool // always use defaultKeys (oracles that enumerate them)
 	NoBuilders  bool // do not emit state-building operations
@@ -183,7 +184,8 @@ func genBody(rt *rapid.T, class string, small bool) []byte {
 		case k == 8:
 			return mustJSON([]any{1.0, "two"})
 		default:
-			return pick(rt, [][]byte{[]byte("true"), []byte("false"), []byte("0")}, "body.lit")
+			// (valid JSON is not always on one line)
+			return pick(rt, [][]byte{[]byte("true"), []byte("false"), []byte("0"), []byte("{\n \"k\": 1,\n \"n\": 2\n}"), []byte("{\"type\":\"t1\",\r\n\"k\":\"a\"}\n")}, "body.lit")
 		}
 	default: // raw
 		k := rapid.IntRange(0, 9).Draw(rt, "body.rkind")
@@ -740,7 +742,11 @@ func genOp1(rt *rapid.T, w *World, pr *Profile) Op {
 	case "SetWithMeta", "DeleteWithMeta":
 		op.Cas = genCas(rt, map[string]int{"current": 60, "zero": 15, "prev": 10, "never": 10, "other": 5})
 		op.Exp = pick(rt, []ExpSpec{{Kind: "zero"}, {Kind: "abs", V: 7200}, {Kind: "rel", V: 90000}}, "meta.exp")
-		op.MetaCas = weighted(rt, map[string]int{"above": 50, "below": 20, "between": 20, "future": 12}, "meta.newcas")
+		mw := map[string]int{"above": 50, "below": 20, "between": 20, "future": 12, "same": 8}
+		if pr.MetaCasW != nil {
+			mw = pr.MetaCasW
+		}
+		op.MetaCas = weighted(rt, mw, "meta.newcas")
 		op.X = genXattrSet(rt, 0, 2, false)
 		if kind == "SetWithMeta" {
 			op.JSON = rapid.Bool().Draw(rt, "meta.json")
@@ -767,6 +773,13 @@ func genOp1(rt *rapid.T, w *World, pr *Profile) Op {
 	}
 	for _, n := range op.XNil {
 		delete(op.X, n) // a nil value wins over a value for the same name
+	}
+	if op.Parsed && op.Body != nil {
+		// a parsed Go value is marshalled by the callee: what is stored is its canonical encoding
+		var v any
+		if json.Unmarshal(op.Body, &v) == nil {
+			op.Body = mustJSON(v)
+		}
 	}
 	return op
 }
